@@ -21,7 +21,7 @@ import (
 func ToCoca(m *modelgen.Model) []core_domain.CodeDataStruct {
 	var out []core_domain.CodeDataStruct
 	for _, c := range m.Classes {
-		ds := core_domain.CodeDataStruct{NodeName: c.Name, Package: c.Pkg, Type: c.Kind, FilePath: c.Pkg + "/" + c.Name + ".java"}
+		ds := core_domain.CodeDataStruct{NodeName: c.Name, Package: c.Pkg, Type: c.Kind, Extend: c.Extend, FilePath: c.Pkg + "/" + c.Name + ".java"}
 		for _, me := range c.Methods {
 			fn := core_domain.CodeFunction{Name: me.Name, ReturnType: "void"}
 			for _, call := range me.Calls {
